@@ -2314,47 +2314,48 @@ impl Zeroconf {
     ) -> Vec<u8> {
         let is_ipv4 = sock.domain() == Domain::IPV4;
 
+        // Use the names most recently announced on this interface (a conflict may have
+        // renamed the instance or the host there).
+        let (fullname, hostname) = match self.dns_registry_map.get(&intf.index) {
+            Some(registry) => (
+                registry.resolve_name(info.get_fullname()).to_string(),
+                registry.resolve_name(info.get_hostname()).to_string(),
+            ),
+            None => (
+                info.get_fullname().to_string(),
+                info.get_hostname().to_string(),
+            ),
+        };
+
         let mut out = DnsOutgoing::new(FLAGS_QR_RESPONSE | FLAGS_AA);
         out.add_answer_at_time(
-            DnsPointer::new(
-                info.get_type(),
-                RRType::PTR,
-                CLASS_IN,
-                0,
-                info.get_fullname().to_string(),
-            ),
+            DnsPointer::new(info.get_type(), RRType::PTR, CLASS_IN, 0, fullname.clone()),
             0,
         );
 
         if let Some(sub) = info.get_subtype() {
             trace!("Adding subdomain {}", sub);
             out.add_answer_at_time(
-                DnsPointer::new(
-                    sub,
-                    RRType::PTR,
-                    CLASS_IN,
-                    0,
-                    info.get_fullname().to_string(),
-                ),
+                DnsPointer::new(sub, RRType::PTR, CLASS_IN, 0, fullname.clone()),
                 0,
             );
         }
 
         out.add_answer_at_time(
             DnsSrv::new(
-                info.get_fullname(),
+                &fullname,
                 CLASS_IN | CLASS_CACHE_FLUSH,
                 0,
                 info.get_priority(),
                 info.get_weight(),
                 info.get_port(),
-                info.get_hostname().to_string(),
+                hostname.clone(),
             ),
             0,
         );
         out.add_answer_at_time(
             DnsTxt::new(
-                info.get_fullname(),
+                &fullname,
                 CLASS_IN | CLASS_CACHE_FLUSH,
                 0,
                 info.generate_txt(),
@@ -2375,7 +2376,7 @@ impl Zeroconf {
         for address in if_addrs {
             out.add_answer_at_time(
                 DnsAddress::new(
-                    info.get_hostname(),
+                    &hostname,
                     ip_address_rr_type(&address),
                     CLASS_IN | CLASS_CACHE_FLUSH,
                     0,
